@@ -36,6 +36,18 @@ import (
 )
 
 func v20NewCollector(w *v20World) *Collector {
+	if w.nURI < 1 {
+		w.nURI = 1
+	}
+	uris := []string{"v20:cfg"}
+	for u := 1; u < w.nURI; u++ {
+		uris = append(uris, fmt.Sprintf("v20:x%d", u))
+	}
+	var pfs []confmap.ProviderFactory
+	for id := 0; id <= w.nAux; id++ {
+		id := id
+		pfs = append(pfs, confmap.NewProviderFactory(func(confmap.ProviderSettings) confmap.Provider { return &v20Provider{w: w, id: id} }))
+	}
 	nop := zap.WrapCore(func(zapcore.Core) zapcore.Core { return zapcore.NewNopCore() })
 	col, err := NewCollector(CollectorSettings{
 		BuildInfo:             component.NewDefaultBuildInfo(),
@@ -43,10 +55,7 @@ func v20NewCollector(w *v20World) *Collector {
 		SkipSettingGRPCLogger: true,
 		LoggingOptions:        []zap.Option{nop},
 		ConfigProviderSettings: ConfigProviderSettings{ResolverSettings: confmap.ResolverSettings{
-			URIs: []string{"v20:cfg"},
-			ProviderFactories: []confmap.ProviderFactory{confmap.NewProviderFactory(func(confmap.ProviderSettings) confmap.Provider {
-				return &v20Provider{w: w}
-			})},
+			URIs: uris, ProviderFactories: pfs,
 		}},
 	})
 	if err != nil {
@@ -59,7 +68,7 @@ func v20NewCollector(w *v20World) *Collector {
 func v20NewWorld() *v20World {
 	return &v20World{
 		arrived: make(chan int, 8), release: make(chan struct{}), quit: make(chan struct{}),
-		retireGated: map[int]bool{}, hosts: map[int][]component.Host{}, fatalSeen: map[int]int{},
+		retireGated: map[int]bool{}, hosts: map[int][]component.Host{}, fatalSeen: map[int]int{}, provShutBy: map[int]int{},
 	}
 }
 
@@ -146,7 +155,7 @@ func v20RaceTerm(k int, state State, closed bool) string {
 			ss = append(ss, vPair(vNat(9), vBool(false)))
 		}
 	}
-	return vPair(vPair(vList(nil), vBool(false)), vPair(vList(ls), vPair(vList(ss), vPair(vList(nil), vNat(0)))))
+	return vPair(vPair(vList(nil), vPair(vBool(false), vPair(vNat(1), vNat(0)))), vPair(vList(ls), vPair(vList(ss), vPair(vList(nil), vNat(0)))))
 }
 
 // ---- free-running collector -------------------------------------------------------------------------
@@ -154,6 +163,7 @@ func v20FreeRun(idx int, out *vOut) {
 	r := vNewRand(uint64(0xC20F<<20) + uint64(idx))
 	w := v20NewWorld()
 	w.nogate = true
+	w.nURI, w.nAux = 1+r.Pick(5, 3, 2), r.Pick(4, 4, 2)
 	for g := 0; g < 8; g++ {
 		gen := v20RandGen(r, g == 0)
 		if r.Intn(100) < 60 { // mostly configurations that come up: the interesting races need a live service
@@ -238,14 +248,17 @@ func v20FreeRun(idx int, out *vOut) {
 	returned := done()
 	w.mu.Lock()
 	log := append([]v20Ev(nil), w.log...)
-	provShut := w.provShut
+	provShutBy := map[int]int{}
+	for k, v := range w.provShutBy {
+		provShutBy[k] = v
+	}
 	w.mu.Unlock()
 	cls := 0
 	if returned {
 		cls = v20ErrClass(runErr)
 	}
 	stop := cls == 1 || cls == 7
-	v20LogOracle(fail, log, provShut, returned, stop, runErr, col.GetState())
+	v20LogOracle(fail, log, provShutBy, 1+w.nAux, returned, stop, runErr, col.GetState())
 	if returned && !stop && v20ChanClosed(col) && col.GetState() == StateRunning {
 		fail("stop-not-closed", "Run returned with the state at Running")
 	}
